@@ -35,7 +35,9 @@ TInit ==
   /\ bud = [edits |-> 0, fails |-> 0, kills |-> 0, stops |-> 0, deletes |-> 0, foreign |-> 0, toggles |-> 0,
             relists |-> 0, holds |-> 0]
   /\ gh = [succ |-> [h \in H |-> 0], seen |-> [h \in H |-> 0], deldone |-> {}, early |-> FALSE,
-           touched |-> FALSE, resumed |-> [h \in H |-> 0], badinv |-> "none", foreignlost |-> FALSE]
+           touched |-> FALSE, resumed |-> [h \in H |-> 0], badinv |-> "none", foreignlost |-> FALSE,
+           reverted |-> FALSE, leftunmatched |-> FALSE, staleview |-> FALSE,
+           ownrv |-> 0, owntime |-> 0, blindwrite |-> FALSE]
 
 Ev(e) == l <= Len(T) /\ E.ev = e /\ E.t = now /\ l' = l + 1 /\ UNCHANGED tid
 Keep == UNCHANGED <<tid, l>>
@@ -62,21 +64,25 @@ TJson    == Ev("json") /\ SrvJson
                  [] E.code = 422 -> obj.exists /\ obj.rv # cyc.fresh
                  [] OTHER -> obj.exists /\ obj.rv = cyc.fresh /\ obj'.fins = E.fins /\ obj'.rv = E.rv /\ obj'.exists = ~E.gone
 TEnd     == Ev("end") /\ Post /\ cyc.rv = E.rv
-TKill    == Ev("kill") /\ Kill
+TKill    == Ev("kill") /\ IF up THEN Kill ELSE UNCHANGED <<obj, chan, bl, up, stopping, mem, wk, pc, cyc, now, bud, gh>>
 TStop    == Ev("stop") /\ Stop
 TDown    == Ev("down") /\ IF up THEN Down ELSE UNCHANGED <<obj, chan, bl, up, stopping, mem, wk, pc, cyc, now, bud, gh>>
 TList    == Ev("list") /\ (IF up THEN Relist ELSE Start)
             /\ (IF E.rv = 0 THEN ~obj.exists ELSE obj.exists /\ obj.rv = E.rv)
-TQuiet   == Ev("quiet") /\ ~ENABLED Urgent /\ UNCHANGED <<obj, chan, bl, up, stopping, mem, wk, pc, cyc, now, bud, gh>>
+TQuiet   == Ev("quiet") /\ ~ENABLED Urgent /\ (up => chan = <<>> /\ bl = <<>>)
+            /\ (up /\ pc \notin {"sleep", "cwait"} => (Converged \/ Family_F20 \/ Family_F21 \/ Family_F22)) /\ UNCHANGED <<obj, chan, bl, up, stopping, mem, wk, pc, cyc, now, bud, gh>>
 
 Silent == (CWaitWoken \/ CWaitTimeout \/ ProcFinish \/ Reply1 \/ SleepWake \/ SleepExpire) /\ Keep
 Advance == /\ l <= Len(T) /\ E.t > now /\ ~ENABLED Urgent
            /\ now' = E.t /\ UNCHANGED <<obj, chan, bl, up, stopping, mem, wk, pc, cyc, bud, gh, conf, tid, l>>
 
 AllInv == InvokeGoverned /\ InvokeCauseOk /\ CloseExactlyWhenDone /\ NeverEarly /\ ForeignUntouched /\ ResumeOnce
+          /\ FreshOrTimedOut /\ RetriesBounded /\ Stealth
 FirstBad == IF ~InvokeGoverned THEN "InvokeGoverned" ELSE IF ~InvokeCauseOk THEN "InvokeCauseOk"
             ELSE IF ~CloseExactlyWhenDone THEN "CloseExactlyWhenDone" ELSE IF ~NeverEarly THEN "NeverEarly"
-            ELSE IF ~ForeignUntouched THEN "ForeignUntouched" ELSE IF ~ResumeOnce THEN "ResumeOnce" ELSE "none"
+            ELSE IF ~ForeignUntouched THEN "ForeignUntouched" ELSE IF ~ResumeOnce THEN "ResumeOnce"
+            ELSE IF ~FreshOrTimedOut THEN "FreshOrTimedOut" ELSE IF ~RetriesBounded THEN "RetriesBounded"
+            ELSE IF ~Stealth THEN "Stealth" ELSE "none"
 
 TStep == TEdit \/ TDelete \/ TFin \/ TDeliver \/ TBegin \/ TInv \/ TMerge \/ TJson \/ TEnd \/ TKill \/ TStop \/ TDown
          \/ TList \/ TQuiet \/ Silent \/ Advance
